@@ -5,14 +5,12 @@ go 1.19
 require (
 	drpcv0017 v0.0.0
 	github.com/anishathalye/porcupine v1.3.0
+	github.com/zeebo/errs v1.2.2
 	google.golang.org/protobuf v1.27.1
 	storj.io/drpc v0.0.0
 )
 
-require (
-	github.com/gogo/protobuf v1.3.2 // indirect
-	github.com/zeebo/errs v1.2.2 // indirect
-)
+require github.com/gogo/protobuf v1.3.2 // indirect
 
 replace storj.io/drpc => /repo
 
